@@ -90,6 +90,18 @@ def check_constructor(ctx):
             for o in others:
                 if not (cfg.edge_dominates(nt[0], "false", o) or cfg.edge_dominates(it[0], "false" if neg_it else "true", o)):
                     ok_norm = False
+    if not norm_stores:
+        # other spelling: the validated dictionary is *re-bound* to its normalisation under the same two guards, and one store
+        # after the branches keeps whatever the name holds then
+        rebinds = [n for n in cfg.nodes if isinstance(n.ast, ast.Assign) and isinstance(n.ast.targets[0], ast.Name) and n.ast.targets[0].id == validated and isinstance(n.ast.value, ast.Call) and "normalize_measurement_outcome_distribution" in norm(n.ast.value.func) and n.ast.value.args and norm(n.ast.value.args[0]) == validated]
+        nt = [n for n in cfg.nodes if n.kind == "test" and isinstance(n.ast, ast.If) and norm(n.ast.test) in ("normalize", ps[2] if len(ps) > 2 else "normalize")]
+        it = [n for n in cfg.nodes if n.kind == "test" and isinstance(n.ast, ast.If) and "is_normalized" in norm(n.ast.test)]
+        if len(rebinds) == 1 and nt and it and len(stores) == 1 and isinstance(stores[0].ast.value, ast.Name) and stores[0].ast.value.id == validated:
+            rb = rebinds[0]
+            neg_it = isinstance(it[0].ast.test, ast.UnaryOp)
+            ok_norm = cfg.edge_dominates(nt[0], "true", rb) and cfg.edge_dominates(it[0], "true" if neg_it else "false", rb) and cfg.reaches(rb, stores[0]) and not cfg.dominates(nt[0], stores[0]) is None
+            # the store itself must not sit under either guard (it has to be reached on every validated path)
+            ok_norm = ok_norm and not any(cfg.edge_dominates(g, lab, stores[0]) for g in (nt[0], it[0]) for lab in ("true", "false"))
     ctx.check(ok_norm, R1, fi.key + ":normalise", "un-normalised input is normalised exactly when normalize is set", "the normalising store is not selected exactly by (normalize and not is_normalized): a distribution built with normalisation on may stay un-normalised", fi)
     # validity predicate: four conjuncts
     pred = repo.func(f"{MOD}:is_measurement_outcome_distribution")
